@@ -194,8 +194,17 @@ func genMatcher(rt *rapid.T, label string) c13Matcher {
 //	type     same name and value, different type
 //	random   independent
 func genMatcherPair(rt *rapid.T, types []labels.MatchType) (c13Matcher, c13Matcher, string) {
-	mode := rapid.SampledFrom([]string{"shift", "shift", "resplit", "type", "random", "longshift"}).Draw(rt, "mmode")
+	mode := rapid.SampledFrom([]string{"shift", "shift", "resplit", "type", "random", "longshift", "opshift"}).Draw(rt, "mmode")
 	switch mode {
+	case "opshift":
+		// The operators have different widths ("=" / "=~"): with the type rendered as its operator,
+		// (n = "~v") and (n =~ "v") read the same. Only equality matchers being cacheable makes it matter.
+		n, v := genName(rt, "n"), genValue(rt, "v")
+		a, b := c13Matcher{n, labels.MatchEqual, "~" + v}, c13Matcher{n, labels.MatchRegexp, v}
+		if rapid.Bool().Draw(rt, "swap") {
+			a, b = b, a
+		}
+		return a, b, mode
 	case "longshift":
 		// As "shift", but the part that moves between name and value is 254..257 or 510..513 bytes long
 		// and the type in the middle is rendered either as the operator or as a one-digit code: the two
